@@ -399,6 +399,12 @@ func analyseFunc(pk, fn string, fd *ast.FuncDecl, info *types.Info, F facts) {
 					F.add("idReads", where)
 				}
 			}
+			// every mention of the direction flags of an edge (read or written): where the code distinguishes reversed edges
+			if t.Sel.Name == "IsReversed" || t.Sel.Name == "ArrowHeadStart" {
+				if sel := info.Selections[t]; sel != nil && sel.Kind() == types.FieldVal {
+					F.add("flagUses", where+": ."+t.Sel.Name)
+				}
+			}
 			if pk == "internal/phase1" || pk == "internal/phase2" || pk == "internal/phase3" {
 				switch t.Sel.Name {
 				case "W", "H", "X", "Y", "NodeSpacing", "LayerSpacing":
@@ -451,7 +457,7 @@ func leanStr(s string) string {
 
 func emit(F facts) {
 	keys := []string{"globals", "globalWrites", "inits", "imports", "mapRanges", "mapCalls", "nondet", "sorts", "panics",
-		"unboundedLoops", "recursive", "idReads", "stringKeyedMaps", "topoWrites", "sizeReadsPhases123", "floatLits", "floatConsts",
+		"unboundedLoops", "recursive", "idReads", "stringKeyedMaps", "topoWrites", "sizeReadsPhases123", "floatLits", "floatConsts", "flagUses",
 		"numConversions", "monitorCalls", "layoutMonitorStmts", "geomBodies", "callSeqs"}
 	var b strings.Builder
 	b.WriteString("/-! GENERATED by /verif/extract from /repo's working tree on every check run. Do not edit. -/\n\nnamespace Autog.Facts\n\n")
